@@ -167,10 +167,10 @@ class Prop(common.PropertyCheck):
             # the concrete file on which Properties/C01f.lean instantiates `loadFile_of_keywords` is the one the independent
             # writer produces for this spec; the real loader's result on it is then checked like that of any other file
             import re
-            src = open(os.path.join(common.ROOT, 'lean', 'Properties', 'C01f.lean')).read()
+            src = ''.join(open(os.path.join(common.ROOT, 'lean', 'Properties', f)).read() for f in ('C01f.lean', 'C01g.lean'))
             m = re.search(r'def %s : List Nat := \[(.*?)\]' % case['theorem_file'], src, re.S)
             if not m or [int(x) for x in m.group(1).replace('\n', ' ').split(',')] != impl['file']:
-                return 'the file of theorem %s (Properties/C01f.lean) is not the file written for its spec' % case['theorem_file']
+                return 'the file of theorem %s (Properties/C01f.lean, C01g.lean) is not the file written for its spec' % case['theorem_file']
             self.bump('theorem-file')
         mal = spec.get('malformed')
         if mal:
